@@ -6,6 +6,7 @@ package main
 // sync.(RW)Mutex methods are specified over it in stubs/std.spec.
 
 import (
+	"fmt"
 	"go/token"
 	"go/types"
 	"sort"
@@ -110,4 +111,132 @@ func (w *World) guardedAccessors(prog []*ssa.Function) map[string][]string {
 		sort.Strings(out[k])
 	}
 	return out
+}
+
+// freshVal: an arbitrary value of type ty (tuples component-wise).
+func (ft *FuncTr) absVal(ty types.Type, tag string) Val {
+	if tup, ok := ty.(*types.Tuple); ok {
+		var vs []Val
+		for i := 0; i < tup.Len(); i++ {
+			vs = append(vs, ft.absVal(tup.At(i).Type(), tag))
+		}
+		return Val{Tuple: vs}
+	}
+	return Val{T: ft.d.Fresh(tag, ft.w.sortOf(ft.d, ty))}
+}
+
+// computeLoopModsLockOnly: only the locals assigned in the loop and the map iterators advanced in it are needed;
+// the heap is havocked as a whole at the loop head.
+func (ft *FuncTr) computeLoopModsLockOnly(l *LoopInfo) {
+	l.modLocals = map[*ssa.Alloc]bool{}
+	l.modArrs = map[string]*loopArr{}
+	l.modIters = map[*ssa.Range]bool{}
+	l.modGhost = map[string]*Sort{}
+	for _, b := range ft.fn.Blocks {
+		if !l.Blocks[b] {
+			continue
+		}
+		for _, in := range b.Instrs {
+			switch x := in.(type) {
+			case *ssa.Store:
+				if al, ok := rootAlloc(x.Addr); ok {
+					l.modLocals[al] = true
+				}
+			case *ssa.Alloc:
+				l.modLocals[x] = true
+			case *ssa.Next:
+				if r, ok := x.Iter.(*ssa.Range); ok {
+					l.modIters[r] = true
+					l.modGhost[iterKeyName(r)] = ft.w.sortOf(ft.d, r.X.Type().Underlying().(*types.Map).Key())
+				}
+			case *ssa.Call:
+				// a local whose address escapes into a call may be written by it
+				for _, a := range x.Call.Args {
+					if al, ok := rootAlloc(a); ok {
+						l.modLocals[al] = true
+					}
+				}
+			}
+		}
+	}
+}
+
+func rootAlloc(v ssa.Value) (*ssa.Alloc, bool) {
+	for {
+		switch x := v.(type) {
+		case *ssa.Alloc:
+			return x, true
+		case *ssa.FieldAddr:
+			v = x.X
+		case *ssa.IndexAddr:
+			v = x.X
+		default:
+			return nil, false
+		}
+	}
+}
+
+// touchesLocks: does fn (or a function it statically calls, or a closure it creates) call a sync lock method?
+func (w *World) touchesLocks(fn *ssa.Function, seen map[*ssa.Function]bool) bool {
+	if fn == nil || seen[fn] {
+		return false
+	}
+	seen[fn] = true
+	if fn.Blocks == nil {
+		return false
+	}
+	for _, b := range fn.Blocks {
+		for _, in := range b.Instrs {
+			var c *ssa.CallCommon
+			switch x := in.(type) {
+			case *ssa.Call:
+				c = x.Common()
+			case *ssa.Defer:
+				c = x.Common()
+			case *ssa.Go:
+				continue // another thread
+			case *ssa.MakeClosure:
+				if f2, ok := x.Fn.(*ssa.Function); ok && w.touchesLocks(f2, seen) {
+					return true
+				}
+			}
+			if c == nil {
+				continue
+			}
+			if sc := c.StaticCallee(); sc != nil {
+				n := calleeName(sc)
+				if strings.HasPrefix(n, "(*sync.RWMutex).") || strings.HasPrefix(n, "(*sync.Mutex).") {
+					return true
+				}
+				if w.touchesLocks(sc, seen) {
+					return true
+				}
+			}
+		}
+	}
+	return false
+}
+
+// abstractCall (lock-discipline-only functions): a callee without contract that takes no lock itself is
+// abstracted: arbitrary results, arbitrary heap afterwards, lock state unchanged.
+func (ft *FuncTr) abstractCall(st *State, at *Term, sig *types.Signature, fn *ssa.Function, name string) (Val, error) {
+	if fn != nil && ft.w.touchesLocks(fn, map[*ssa.Function]bool{}) {
+		return Val{}, fmt.Errorf("callee %s takes locks: it needs a (lock) contract to be called from a lock-discipline-only function", name)
+	}
+	if fn == nil {
+		ft.w.assume("function values and interface methods called from lock-discipline-only functions do not take the guarded locks (" + shortFuncName(ft.fn) + ")")
+	}
+	old := ft.h.nextID(st)
+	ft.h.havocAll(st)
+	nx := ft.d.Fresh("g_next_a", SInt)
+	ft.assume(at, Le(old, nx))
+	st.ghost["$next"] = nx
+	res := sig.Results()
+	switch res.Len() {
+	case 0:
+		return Val{}, nil
+	case 1:
+		return ft.absVal(res.At(0).Type(), "abs"), nil
+	}
+	return ft.absVal(res, "abs"), nil
 }
